@@ -1177,6 +1177,8 @@ def inline_foreign_tail_calls(P, fn, stmts):
                     return None
                 if mode == 'expr' and isinstance(x, ast.Return):
                     return None
+                if mode == 'tail-stmt' and isinstance(x, ast.Return) and x.value is not None and not (isinstance(x.value, ast.Constant) and x.value.value is None):
+                    return None
                 # one level: the body must not itself contain a call that this pass would expand
         bind = dict(bind, self=call.func.value)
         ren = {nm: f'{nm}__{fd.name.strip("_")}' for nm in stored}
@@ -1196,12 +1198,15 @@ def inline_foreign_tail_calls(P, fn, stmts):
             ast.fix_missing_locations(out[-1])
         return out
 
-    def block(sts):
+    def block(sts, tail=False):
         res, changed = [], False
-        for st in sts:
+        for idx_, st in enumerate(sts):
             rep = None
             if isinstance(st, ast.Return) and st.value in cand:
                 rep = expand(st.value, 'return')
+            elif tail and idx_ == len(sts) - 1 and isinstance(st, ast.Expr) and st.value in cand:
+                # the last statement of the function: the callee's (value-less) returns end the caller as well
+                rep = expand(st.value, 'tail-stmt')
             if rep is not None:
                 res += rep
                 changed = True
@@ -1235,7 +1240,7 @@ def inline_foreign_tail_calls(P, fn, stmts):
                     continue
             res.append(st)
         return res, changed
-    out, ch = block(stmts)
+    out, ch = block(stmts, tail=True)
     return out if ch else stmts
 
 
